@@ -40,6 +40,8 @@ func runC10(w *World, r *Report) {
 	c10Labels(w, r)
 	c10QueryKeys(w, r)
 	c10FullRead(w, r)
+	c10TimeLossless(w, r)
+	c10SearchOrder(w, r)
 }
 
 func returnsGlobal(rp RetPath, name string) bool {
